@@ -1,4 +1,4 @@
-import PraatModel.Props.C12Validate
+import PraatModel.Props.C05Points
 
 /-!
 # C07, point tiers — the full functional specification of `PointTier.eraseRegion`
@@ -11,14 +11,14 @@ All statements are about the model function `PTier.eraseRegion` of `Ops.lean` (t
 |---|---|
 | a region with `b ≤ a` is refused (ArgumentError), nothing else is | `perase_rejects` (C07), `perase_ok_iff` |
 | no shrinking: exactly the points with `t < a` or `b < t` remain (both edges go), name and span kept — for ANY region `a < b`, inside the span or not | `perase_noshrink_eq` |
-| shrinking, any region: the entries in closed form (`pshrinkOne`; the arithmetic is `a + (t - b)`), the span as the constructor's hull | `perase_shrink_any` |
+| shrinking, ANY region (fix A28: the region is clipped to the span, `a' = max a lo`, `b' = min b hi`): an unchanged copy if `b' ≤ a'`, else the entries in closed form (`pshrinkOne`; the arithmetic is `a' + (t - b')`), start kept, end `b' - a'` earlier | `perase_shrink_unfold`, `perase_shrink_any`, `perase_shrink_clip`, `perase_span_any` |
 | shrinking, region inside the span: span start kept, span end exactly `b - a` earlier | `perase_shrink_eq` |
 | both together, the registered main statement | `perase_spec` |
 | one-to-one, order and labels kept: the shrunk entries are the un-shrunk ones, each moved or not | `perase_shrink_map` |
 | multiset statements (duplicates) | `perase_count_noshrink`, `perase_count_shrink` |
-| points exactly at `a` and exactly at `b` go; after shrinking nothing sits at `a` | `perase_edges` |
+| points exactly at `a` and exactly at `b` go; after shrinking nothing sits at `a'` | `perase_edges` |
 | a point from after `b` never lands on a point from before `a` (they stay strictly apart, on either side of `a`) | `perase_no_collision`, rounding-generic: `perase_no_collision_R` |
-| why "inside the span" is needed for the span clause | `perase_shrink_outside_example` |
+| regression of A28 (regions sticking out of / outside / touching the span) | `perase_shrink_outside_example` |
 -/
 namespace C07
 
@@ -80,32 +80,48 @@ theorem not_inside_eq_outside (a b : Int) :
   simp only [outside]
   by_cases h1 : a ≤ p.t <;> by_cases h2 : p.t ≤ b <;> simp [h1, h2] <;> omega
 
-/-- `eraseRegion` up to the shrink step: the tier with exactly the points outside `[a, b]` -/
-theorem perase_unfold (t : PTier Int) (hwf : t.WF) (a b : Int) (hab : a < b) (sh : Bool) :
-    t.eraseRegion a b sh =
-      (if sh then
-        ({ t with ps := t.ps.filter (outside a b) } : PTier Int).new
-          (ps := some ((t.ps.filter (outside a b)).filterMap (pshrinkOne a b)))
-          (hi := some (shiftBack a b t.hi))
-       else .ok { t with ps := t.ps.filter (outside a b) }) := by
+/-- the deletion step in closed form: the matches are taken with the region as given -/
+theorem perase_matches (t : PTier Int) (hwf : t.WF) (a b : Int) (hab : a < b) :
+    ∃ ct, t.crop a b false = .ok ct ∧
+      ct.ps.reverse.foldlM deletePt t.ps = .ok (t.ps.filter (outside a b)) := by
   obtain ⟨ct, hc, _, _, hps, _, _⟩ := C06.pcrop_spec t hwf a b hab false
   simp only [Bool.false_eq_true, if_false, List.map_id'] at hps
-  unfold PTier.eraseRegion
-  rw [C05.pnew_of_wf t hwf]
-  simp only [bind, Except.bind]
-  rw [hc]
-  simp only [hps, deleteMatches, not_inside_eq_outside]
-  cases sh with
-  | false => rfl
-  | true => rfl
+  refine ⟨ct, hc, ?_⟩
+  rw [hps, deleteMatches, not_inside_eq_outside]
 
 /-- **no shrinking**: for ANY region `a < b` (inside the span, sticking out of it, or beyond it) the call returns the
 same tier with exactly the points at `t < a` or `b < t` — in their old order, duplicates included; points exactly at `a`
 and exactly at `b` are removed; name and span are unchanged -/
 theorem perase_noshrink_eq (t : PTier Int) (hwf : t.WF) (a b : Int) (hab : a < b) :
     t.eraseRegion a b false = .ok { t with ps := t.ps.filter (fun p => decide (p.t < a ∨ b < p.t)) } := by
-  rw [perase_unfold t hwf a b hab false]
+  obtain ⟨ct, hc, hd⟩ := perase_matches t hwf a b hab
+  unfold PTier.eraseRegion
+  rw [C05.pnew_of_wf t hwf]
+  simp only [bind, Except.bind]
+  rw [hc]
+  simp only [hd]
   rfl
+
+/-- **shrinking, the code path in closed form** (fix A28): the region is clipped to the span, `a' = max a lo`,
+`b' = min b hi`; a clipped region with `b' ≤ a'` returns an unchanged copy; otherwise the matches of the region AS GIVEN are
+deleted and the shrink loop runs with the clipped region -/
+theorem perase_shrink_unfold (t : PTier Int) (hwf : t.WF) (a b : Int) (hab : a < b) :
+    t.eraseRegion a b true =
+      (if min b t.hi ≤ max a t.lo then .ok t
+       else
+        ({ t with ps := t.ps.filter (outside a b) } : PTier Int).new
+          (ps := some ((t.ps.filter (outside a b)).filterMap (pshrinkOne (max a t.lo) (min b t.hi))))
+          (hi := some (shiftBack (max a t.lo) (min b t.hi) t.hi))) := by
+  obtain ⟨ct, hc, hd⟩ := perase_matches t hwf a b hab
+  obtain ⟨e1, e2⟩ := clip_true t.lo t.hi a b
+  unfold PTier.eraseRegion
+  rw [C05.pnew_of_wf t hwf]
+  simp only [bind, Except.bind]
+  rw [hc]
+  simp only [hd, e1, e2, Bool.true_and, decide_eq_true_eq, if_true]
+  split
+  · rfl
+  · rfl
 
 theorem filterMap_pshrinkOne_outside (a b : Int) (ps : List (Pt Int)) :
     (ps.filter (outside a b)).filterMap (pshrinkOne a b) = ps.filterMap (pshrinkOne a b) := by
@@ -178,26 +194,27 @@ theorem pshrink_sorted (a b : Int) (hab : a < b) (ps : List (Pt Int))
   · omega
   · simp only; grind
 
-/-- **shrinking, any region `a < b`**: the call succeeds; the entries are, in this order, the points before `a` unchanged
-and the points after `b` moved by exactly `b - a` (the model computes `a + (t - b)`); the span is what the
-constructor makes of the old start, the shifted end `a + (hi - b)` and the entries -/
-theorem perase_shrink_any (t : PTier Int) (hwf : t.WF) (a b : Int) (hab : a < b) :
-    t.eraseRegion a b true = .ok ⟨t.name, pshrink a b t.ps,
-      hullMin ((pshrink a b t.ps).map (·.t) ++ [t.lo]) (shiftBack a b t.hi),
-      hullMax ((pshrink a b t.ps).map (·.t) ++ [t.lo]) (shiftBack a b t.hi)⟩ := by
-  rw [perase_unfold t hwf a b hab true]
-  simp only [if_true, PTier.new, Option.getD_some, Option.getD_none, filterMap_pshrinkOne_outside,
-    filterMap_pshrinkOne_eq a b hab t.ps hwf.sorted]
-  apply mkPTier_of_wf _ _ _ _ (pshrink_sorted a b hab t.ps hwf.sorted)
-  intro y hy
-  rcases pshrink_mem hy with ⟨h1, _⟩ | ⟨p, h1, _, rfl⟩
-  · exact hwf.stripped y h1
-  · exact hwf.stripped p h1
+/-- the matches of the region as given are the matches of the clipped region: every point lies inside the span -/
+theorem filterMap_pshrinkOne_clip (t : PTier Int) (hwf : t.WF) (a b : Int) :
+    (t.ps.filter (outside a b)).filterMap (pshrinkOne (max a t.lo) (min b t.hi)) =
+      t.ps.filterMap (pshrinkOne (max a t.lo) (min b t.hi)) := by
+  have hf : t.ps.filter (outside a b) = t.ps.filter (outside (max a t.lo) (min b t.hi)) := by
+    apply List.filter_congr
+    intro p hp
+    have := hwf.inLo p hp; have := hwf.inHi p hp
+    simp only [outside, decide_eq_decide]
+    omega
+  rw [hf, filterMap_pshrinkOne_outside]
 
-/-- **shrinking, region inside the span**: the span start is kept and the span end decreases by exactly `b - a` -/
-theorem perase_shrink_eq (t : PTier Int) (hwf : t.WF) (a b : Int) (hab : a < b) (hlo : t.lo ≤ a) (hhi : b ≤ t.hi) :
-    t.eraseRegion a b true = .ok ⟨t.name, pshrink a b t.ps, t.lo, t.hi - (b - a)⟩ := by
-  rw [perase_shrink_any t hwf a b hab]
+/-- the constructor call at the end of the shrink step, for a region inside the span -/
+theorem mk_pshrink (t : PTier Int) (hwf : t.WF) (a b : Int) (hab : a < b) (hlo : t.lo ≤ a) (hhi : b ≤ t.hi) :
+    mkPTier t.name (pshrink a b t.ps) (some t.lo) (some (shiftBack a b t.hi)) =
+      .ok ⟨t.name, pshrink a b t.ps, t.lo, t.hi - (b - a)⟩ := by
+  rw [mkPTier_of_wf _ _ _ _ (pshrink_sorted a b hab t.ps hwf.sorted) (by
+    intro y hy
+    rcases pshrink_mem hy with ⟨h1, _⟩ | ⟨p, h1, _, rfl⟩
+    · exact hwf.stripped y h1
+    · exact hwf.stripped p h1)]
   have hb : ∀ x ∈ (pshrink a b t.ps).map (·.t) ++ [t.lo], t.lo ≤ x ∧ x ≤ t.hi - (b - a) := by
     intro x hx
     simp only [List.mem_append, List.mem_map, List.mem_singleton] at hx
@@ -220,6 +237,38 @@ theorem perase_shrink_eq (t : PTier Int) (hwf : t.WF) (a b : Int) (hab : a < b) 
       · exact (hb _ h').1
     omega
   rw [e1, e2]
+
+/-- **shrinking, ANY region `a < b`** (fix A28): with `a' = max a lo`, `b' = min b hi` the part of the region inside the
+span — if that part is empty or a single time (`b' ≤ a'`) an unchanged copy is returned; otherwise the entries are, in
+this order, the points before `a'` unchanged and the points after `b'` moved by exactly `b' - a'` (the model computes
+`a' + (t - b')`), the span start is kept and the span end decreases by exactly `b' - a'`.  The result is well-formed in
+every case. -/
+theorem perase_shrink_any (t : PTier Int) (hwf : t.WF) (a b : Int) (hab : a < b) :
+    t.eraseRegion a b true =
+      (if min b t.hi ≤ max a t.lo then .ok t
+       else .ok ⟨t.name, pshrink (max a t.lo) (min b t.hi) t.ps, t.lo, t.hi - (min b t.hi - max a t.lo)⟩) := by
+  rw [perase_shrink_unfold t hwf a b hab]
+  split
+  · rfl
+  · rename_i hne
+    have hne' : max a t.lo < min b t.hi := by omega
+    simp only [PTier.new, Option.getD_some, Option.getD_none, filterMap_pshrinkOne_clip t hwf,
+      filterMap_pshrinkOne_eq _ _ hne' t.ps hwf.sorted]
+    exact mk_pshrink t hwf _ _ hne' (by omega) (by omega)
+
+/-- **shrinking, region inside the span**: the span start is kept and the span end decreases by exactly `b - a` -/
+theorem perase_shrink_eq (t : PTier Int) (hwf : t.WF) (a b : Int) (hab : a < b) (hlo : t.lo ≤ a) (hhi : b ≤ t.hi) :
+    t.eraseRegion a b true = .ok ⟨t.name, pshrink a b t.ps, t.lo, t.hi - (b - a)⟩ := by
+  rw [perase_shrink_any t hwf a b hab, if_neg (by omega)]
+  have e1 : max a t.lo = a := by omega
+  have e2 : min b t.hi = b := by omega
+  rw [e1, e2]
+
+/-- **perase_shrink_clip**: shrinking ANY region whose part inside the span is not empty is shrinking that part -/
+theorem perase_shrink_clip (t : PTier Int) (hwf : t.WF) (a b : Int) (hab : a < b) (hne : max a t.lo < min b t.hi) :
+    t.eraseRegion a b true = t.eraseRegion (max a t.lo) (min b t.hi) true := by
+  rw [perase_shrink_any t hwf a b hab, if_neg (by omega),
+    perase_shrink_eq t hwf _ _ hne (by omega) (by omega)]
 
 /-! ## the main statement -/
 
@@ -244,6 +293,23 @@ theorem perase_spec (t : PTier Int) (hwf : t.WF) (a b : Int) (hab : a < b) (sh :
     have h := perase_shrink_eq t hwf a b hab h1 h2
     exact ⟨_, h, C05.perase_wf t a b true _ h, rfl, rfl, rfl, rfl⟩
 
+/-- **any region** (no hypothesis on its position): the call succeeds, the result is well-formed, keeps name and span
+start, and — shrinking — the span end decreases by exactly the length of the part of the region inside the span -/
+theorem perase_span_any (t : PTier Int) (hwf : t.WF) (a b : Int) (hab : a < b) (sh : Bool) :
+    ∃ t', t.eraseRegion a b sh = .ok t' ∧ t'.WF ∧ t'.name = t.name ∧ t'.lo = t.lo ∧
+      t'.hi = (if sh then t.hi - max 0 (min b t.hi - max a t.lo) else t.hi) := by
+  cases sh with
+  | false =>
+    have h := perase_noshrink_eq t hwf a b hab
+    exact ⟨_, h, C05.perase_wf t a b false _ h, rfl, rfl, rfl⟩
+  | true =>
+    have h := perase_shrink_any t hwf a b hab
+    by_cases hc : min b t.hi ≤ max a t.lo
+    · rw [if_pos hc] at h
+      exact ⟨t, h, hwf, rfl, rfl, by simp only [if_true]; omega⟩
+    · rw [if_neg hc] at h
+      exact ⟨_, h, C05.perase_wf t a b true _ h, rfl, rfl, by simp only [if_true]; omega⟩
+
 /-- the only refusal: a proper region is never refused, whatever its position relative to the span -/
 theorem perase_ok_iff (t : PTier Int) (hwf : t.WF) (a b : Int) (sh : Bool) :
     (∃ t', t.eraseRegion a b sh = .ok t') ↔ a < b := by
@@ -254,9 +320,8 @@ theorem perase_ok_iff (t : PTier Int) (hwf : t.WF) (a b : Int) (sh : Bool) :
     rw [perase_rejects t hwf a b sh (by omega)] at h
     cases h
   · intro hab
-    cases sh with
-    | false => exact ⟨_, perase_noshrink_eq t hwf a b hab⟩
-    | true => exact ⟨_, perase_shrink_any t hwf a b hab⟩
+    obtain ⟨t', h, _⟩ := perase_span_any t hwf a b hab sh
+    exact ⟨t', h⟩
 
 /-! ## one-to-one correspondence, counts, edges, collisions -/
 
@@ -272,22 +337,27 @@ theorem filterMap_pshrinkOne_of_outside (a b : Int) (l : List (Pt Int)) (h : ∀
     · have h2 : b < p.t := by omega
       simp [pshrinkOne, h1, h2, shiftBack_eq]
 
-/-- **order and labels kept**: the shrunk result is the un-shrunk result with every entry after the region moved by
-`b - a` — same length, same order, same labels (for any region `a < b`) -/
-theorem perase_shrink_map (t : PTier Int) (hwf : t.WF) (a b : Int) (hab : a < b) (u u' : PTier Int)
+/-- **order and labels kept**: the shrunk result is the un-shrunk result with every entry after the region moved —
+same length, same order, same labels.  For ANY region `a < b` whose part `[a', b'] = [max a lo, min b hi]` inside the span
+is not empty; the move is by `b' - a'` (for a region inside the span: `a' = a`, `b' = b`) -/
+theorem perase_shrink_map (t : PTier Int) (hwf : t.WF) (a b : Int) (hab : a < b)
+    (hne : max a t.lo < min b t.hi) (u u' : PTier Int)
     (hu : t.eraseRegion a b false = .ok u) (hu' : t.eraseRegion a b true = .ok u') :
-    u'.ps = u.ps.map (fun p => if p.t < a then p else ⟨p.t - (b - a), p.l⟩) ∧
+    u'.ps = u.ps.map (fun p => if p.t < max a t.lo then p else ⟨p.t - (min b t.hi - max a t.lo), p.l⟩) ∧
     u'.ps.map (·.l) = u.ps.map (·.l) := by
   rw [perase_noshrink_eq t hwf a b hab] at hu
-  rw [perase_shrink_any t hwf a b hab] at hu'
+  rw [perase_shrink_any t hwf a b hab, if_neg (by omega)] at hu'
   cases hu; cases hu'
-  have key : pshrink a b t.ps =
+  have key : pshrink (max a t.lo) (min b t.hi) t.ps =
       (t.ps.filter (fun p => decide (p.t < a ∨ b < p.t))).map
-        (fun p => if p.t < a then p else ⟨p.t - (b - a), p.l⟩) := by
-    rw [← filterMap_pshrinkOne_eq a b hab t.ps hwf.sorted, ← filterMap_pshrinkOne_outside]
+        (fun p => if p.t < max a t.lo then p else ⟨p.t - (min b t.hi - max a t.lo), p.l⟩) := by
+    rw [← filterMap_pshrinkOne_eq _ _ hne t.ps hwf.sorted, ← filterMap_pshrinkOne_clip t hwf]
     apply filterMap_pshrinkOne_of_outside
     intro p hp
-    simpa [outside] using (List.mem_filter.1 hp).2
+    have hm := List.mem_filter.1 hp
+    have := hwf.inLo p hm.1; have := hwf.inHi p hm.1
+    have h2 : p.t < a ∨ b < p.t := by simpa [outside] using hm.2
+    omega
   refine ⟨key, ?_⟩
   simp only [key, List.map_map]
   apply List.map_congr_left
@@ -334,39 +404,45 @@ theorem count_map_shift (k : Int) (l : List (Pt Int)) (y : Pt Int) :
       constructor <;> rintro ⟨h1, h2⟩ <;> exact ⟨by omega, h2⟩
     rw [this]
 
-/-- **shrinking, multiset statement** (any region `a < b`): a point before `a` keeps its multiplicity; a point `y` after `a`
-occurs exactly as often as `⟨y.t + (b - a), y.l⟩` did in the tier (several equal points at one time after `b` all move
-together); no point sits exactly at `a` -/
-theorem perase_count_shrink (t : PTier Int) (hwf : t.WF) (a b : Int) (hab : a < b) (u' : PTier Int)
-    (hu' : t.eraseRegion a b true = .ok u') (y : Pt Int) :
+/-- **shrinking, multiset statement** (ANY region `a < b` whose part `[a', b'] = [max a lo, min b hi]` inside the span is
+not empty): a point before `a'` keeps its multiplicity; a point `y` after `a'` occurs exactly as often as
+`⟨y.t + (b' - a'), y.l⟩` did in the tier (several equal points at one time after `b'` all move together); no point sits
+exactly at `a'` -/
+theorem perase_count_shrink (t : PTier Int) (hwf : t.WF) (a b : Int) (hab : a < b)
+    (hne : max a t.lo < min b t.hi) (u' : PTier Int) (hu' : t.eraseRegion a b true = .ok u') (y : Pt Int) :
     u'.ps.count y =
-      if y.t < a then t.ps.count y else if a < y.t then t.ps.count ⟨y.t + (b - a), y.l⟩ else 0 := by
-  rw [perase_shrink_any t hwf a b hab] at hu'
+      if y.t < max a t.lo then t.ps.count y
+      else if max a t.lo < y.t then t.ps.count ⟨y.t + (min b t.hi - max a t.lo), y.l⟩ else 0 := by
+  rw [perase_shrink_any t hwf a b hab, if_neg (by omega)] at hu'
   cases hu'
+  generalize max a t.lo = a' at *
+  generalize min b t.hi = b' at *
   simp only [pshrink, List.count_append, count_map_shift, count_filter_if, decide_eq_true_eq]
-  by_cases h1 : y.t < a
-  · have h2 : ¬ b < y.t + (b - a) := by omega
+  by_cases h1 : y.t < a'
+  · have h2 : ¬ b' < y.t + (b' - a') := by omega
     simp [h1, h2]
-  · by_cases h2 : a < y.t
-    · have h3 : b < y.t + (b - a) := by omega
+  · by_cases h2 : a' < y.t
+    · have h3 : b' < y.t + (b' - a') := by omega
       simp [h1, h2, h3]
-    · have h3 : ¬ b < y.t + (b - a) := by omega
+    · have h3 : ¬ b' < y.t + (b' - a') := by omega
       simp [h1, h2, h3]
 
 /-- **the edges**: a point exactly at `a` or exactly at `b` is removed (without shrinking nothing remains in `[a, b]`; with
-shrinking nothing sits at `a`, the time onto which `b` is mapped) -/
+shrinking — the part `[a', b']` of the region inside the span not empty — nothing sits at `a'`, the time onto which `b'`
+is mapped) -/
 theorem perase_edges (t : PTier Int) (hwf : t.WF) (a b : Int) (hab : a < b) (sh : Bool) (t' : PTier Int)
     (h : t.eraseRegion a b sh = .ok t') :
-    (sh = false → ∀ p ∈ t'.ps, p.t < a ∨ b < p.t) ∧ (sh = true → ∀ p ∈ t'.ps, p.t < a ∨ a < p.t) := by
+    (sh = false → ∀ p ∈ t'.ps, p.t < a ∨ b < p.t) ∧
+    (sh = true → max a t.lo < min b t.hi → ∀ p ∈ t'.ps, p.t < max a t.lo ∨ max a t.lo < p.t) := by
   constructor
   · intro hs p hp
     subst hs
     rw [perase_noshrink_eq t hwf a b hab] at h
     cases h
     simpa using (List.mem_filter.1 hp).2
-  · intro hs p hp
+  · intro hs hne p hp
     subst hs
-    rw [perase_shrink_any t hwf a b hab] at h
+    rw [perase_shrink_any t hwf a b hab, if_neg (by omega)] at h
     cases h
     rcases pshrink_mem hp with ⟨_, h2⟩ | ⟨q, _, h2, rfl⟩
     · exact Or.inl h2
@@ -400,19 +476,28 @@ def exPts : PTier Int :=
 theorem exPts_wf : exPts.WF := by
   refine ⟨?_, ?_, ?_, ?_, ?_⟩ <;> simp [exPts, Pt.le] <;> decide
 
-/-- **a region sticking out of the span**: shrinking `[6, 15]` out of a tier spanning `[0, 10]` succeeds, but the span end
-becomes 5 (the last remaining point), not `10 - 9 = 1`; and shrinking a region wholly before the span moves every point to
-before the old start.  The hypothesis `lo ≤ a ∧ b ≤ hi` of `perase_shrink_eq` / `perase_spec` is needed (the property
-speaks of regions inside the span only; the same calls on the class return the same tiers) -/
+/-- **regression of A28 — a region sticking out of the span**: shrinking `[6, 15]` out of a tier spanning `[0, 10]` cuts
+out `[6, 10]` only — the span end becomes `10 - 4 = 6` (before the fix: 5, the last remaining point, while a textgrid
+computed 1); a region wholly before the span erases nothing (before the fix every point was moved to before the old start);
+a region that only touches the span's end erases nothing either — when shrinking, not even a point sitting exactly on that
+end, which the same call without shrinking removes (the same calls on the class return the same tiers) -/
 theorem perase_shrink_outside_example :
     exPts.WF ∧
-    exPts.eraseRegion 6 15 true = .ok ⟨"P", [⟨1, "a"⟩, ⟨3, "b"⟩, ⟨3, "c"⟩, ⟨5, "d"⟩, ⟨5, "d"⟩], 0, 5⟩ ∧
-    exPts.eraseRegion (-7) (-2) true =
-      .ok ⟨"P", [⟨-4, "a"⟩, ⟨-2, "b"⟩, ⟨-2, "c"⟩, ⟨0, "d"⟩, ⟨0, "d"⟩, ⟨2, "e"⟩, ⟨4, "f"⟩], -4, 5⟩ := by
-  refine ⟨exPts_wf, ?_, ?_⟩
-  · rw [perase_shrink_any exPts exPts_wf 6 15 (by decide)]
+    exPts.eraseRegion 6 15 true = .ok ⟨"P", [⟨1, "a"⟩, ⟨3, "b"⟩, ⟨3, "c"⟩, ⟨5, "d"⟩, ⟨5, "d"⟩], 0, 6⟩ ∧
+    exPts.eraseRegion (-7) (-2) true = .ok exPts ∧
+    exPts.eraseRegion 9 15 true = .ok ⟨"P", [⟨1, "a"⟩, ⟨3, "b"⟩, ⟨3, "c"⟩, ⟨5, "d"⟩, ⟨5, "d"⟩, ⟨7, "e"⟩], 0, 9⟩ ∧
+    (⟨"Q", [⟨10, "x"⟩], 0, 10⟩ : PTier Int).eraseRegion 10 15 true = .ok ⟨"Q", [⟨10, "x"⟩], 0, 10⟩ ∧
+    (⟨"Q", [⟨10, "x"⟩], 0, 10⟩ : PTier Int).eraseRegion 10 15 false = .ok ⟨"Q", [], 0, 10⟩ := by
+  have hq : (⟨"Q", [⟨10, "x"⟩], 0, 10⟩ : PTier Int).WF := by
+    refine ⟨?_, ?_, ?_, ?_, ?_⟩ <;> simp [Pt.le] <;> decide
+  refine ⟨exPts_wf, ?_, ?_, ?_, ?_, ?_⟩
+  · rw [perase_shrink_any exPts exPts_wf 6 15 (by decide), if_neg (by decide)]
     rfl
-  · rw [perase_shrink_any exPts exPts_wf (-7) (-2) (by decide)]
+  · rw [perase_shrink_any exPts exPts_wf (-7) (-2) (by decide), if_pos (by decide)]
+  · rw [perase_shrink_any exPts exPts_wf 9 15 (by decide), if_neg (by decide)]
+    rfl
+  · rw [perase_shrink_any _ hq 10 15 (by decide), if_pos (by decide)]
+  · rw [perase_noshrink_eq _ hq 10 15 (by decide)]
     rfl
 
 /-- the hypotheses of `perase_spec` are met (proved, not evaluated): edges on points, duplicates inside and outside -/
@@ -436,9 +521,9 @@ example : exPts.eraseRegion 6 15 false = .ok ⟨"P", [⟨1, "a"⟩, ⟨3, "b"⟩
 #guard (exPts.eraseRegion 7 10 true).toOption.map (fun t => (t.ps, t.lo, t.hi)) ==
   some ([⟨1, "a"⟩, ⟨3, "b"⟩, ⟨3, "c"⟩, ⟨5, "d"⟩, ⟨5, "d"⟩], 0, 7)
 #guard (exPts.eraseRegion (-5) 4 true).toOption.map (fun t => (t.ps, t.lo, t.hi)) ==
-  some ([⟨-4, "d"⟩, ⟨-4, "d"⟩, ⟨-2, "e"⟩, ⟨0, "f"⟩], -4, 1)
-#guard (exPts.eraseRegion 12 15 true).toOption.map (fun t => (t.ps.length, t.lo, t.hi)) == some (7, 0, 9)
-#guard (exPts.eraseRegion (-5) 15 true).toOption.map (fun t => (t.ps, t.lo, t.hi)) == some ([], -10, 0)
+  some ([⟨1, "d"⟩, ⟨1, "d"⟩, ⟨3, "e"⟩, ⟨5, "f"⟩], 0, 6)
+#guard (exPts.eraseRegion 12 15 true).toOption.map (fun t => (t.ps.length, t.lo, t.hi)) == some (7, 0, 10)
+#guard (exPts.eraseRegion (-5) 15 true).toOption.map (fun t => (t.ps, t.lo, t.hi)) == some ([], 0, 0)
 #guard (match exPts.eraseRegion 3 3 true with | .error .ArgumentError => true | _ => false)
 
 end C07
